@@ -24,6 +24,37 @@ def _worker_init():
     import logging
 
     logging.disable(logging.CRITICAL)
+    _start_coverage()
+
+
+_COV = None
+
+
+def _start_coverage():
+    """tools/lcm_coverage.sh: line coverage of src/lcm under the checks (a measurement of what the drivers reach, not a check)."""
+    global _COV
+    d = os.environ.get("VERIF_COVERAGE")
+    if not d or _COV is not None:
+        return
+    import atexit
+
+    import coverage
+
+    _COV = coverage.Coverage(data_file=os.path.join(d, "cov"), data_suffix=True, source_pkgs=["lcm"], branch=True)
+    _COV.start()
+    atexit.register(save_coverage)
+    try:
+        from multiprocessing import util
+
+        util.Finalize(None, save_coverage, exitpriority=10)
+    except Exception:  # noqa: BLE001, S110
+        pass
+
+
+def save_coverage():
+    if _COV is not None:
+        _COV.save()
+        _COV.start()
 
 
 def _shape_list(a):
